@@ -1204,7 +1204,27 @@ def catalogue():
         [("pts", "points", None), ("poly", "polygon", None),
          ("inside", "inside", None)],
         lambda a, o: np.array(gutils.points_inside_polygon(
-            a.pts, a.poly, inside=a.inside), copy=True), outs=("inside",))
+            a.pts, a.poly, inside=a.inside), copy=True), outs=("inside",),
+        weight=4)
+    def inside_shared(a, o):
+        """One answer vector reused for two polygons: what it holds after the
+        second call is the answer for the second polygon alone."""
+        gutils.points_inside_polygon(a.pts, a.poly, inside=a.inside)
+        r2 = np.array(gutils.points_inside_polygon(a.pts, a.poly2,
+                                                   inside=a.inside), copy=True)
+        ref = np.asarray(gutils.points_inside_polygon(a.pts, a.poly2))
+        if not np.array_equal(r2, ref):
+            raise Violation("consecutive_calls_differ",
+                            "points_inside_polygon(inside=<vector used for "
+                            "another polygon before>) differs from the call "
+                            f"without a vector: {r2.tolist()[:12]} vs "
+                            f"{ref.tolist()[:12]}",
+                            "gutils.points_inside_polygon(shared inside=)")
+        return r2
+    add("gutils.points_inside_polygon(shared inside=)",
+        [("pts", "points", None), ("poly", "polygon", None),
+         ("poly2", "polygon", None), ("inside", "inside", None)],
+        inside_shared, outs=("inside",), weight=2)
     # ---- plot helpers
     add("boxplot.boxplot_stats", [V],
         lambda a, o: boxplot.boxplot_stats(a.x, o["b"], o["w"]),
